@@ -9,9 +9,9 @@ from .. import common, pipeline, reflex
 
 ID = "C06"
 LEVEL = "fault_enumeration"
-RULE = ("7 valid base modules (one of them without any doccomment or documentable command) x every character offset outside comments and outside the interior of quoted/bracket "
-        "arguments x 10 fault kinds (stray quote, backslash+alnum, backslash at EOF, unterminated '#[[' / '#[=[', extra "
-        "'(' / ')', deleted '(' / ')', bare word), singly and (thorough) in pairs; a mutant is judged only if the "
+RULE = ("8 valid base modules (one with code behind a top-level return()) (one of them without any doccomment or documentable command) x every character offset outside comments and outside the interior of quoted/bracket "
+        "arguments x 12 fault kinds (stray quote, backslash+alnum, backslash at EOF, unterminated '#[[' / '#[=[', extra "
+        "'(' / ')', deleted '(' / ')', bare word in three spellings), singly and (thorough) in pairs; a mutant is judged only if the "
         "reference tokenizer rejects it and - wherever CMake can see the fault - cmake itself rejects it too.  Oracle: "
         "Documenter.process() must raise; the CLI must exit non-zero and write no page for the faulty file (single-file, "
         "directory and recursive directory mode).  non-trivial = every judged mutant; distinct by mutant text")
@@ -23,6 +23,7 @@ BASES = {
     "test_section": "ct_add_test(NAME t1)\nfunction(${t1})\n  ct_add_section(NAME s1 EXPECTFAIL)\n  function(${s1})\n    message(FATAL_ERROR boom)\n  endfunction()\nendfunction()\n",
     "argument_forms": "#[[[\n# forms\n#]]\nset(V a\;b \"q \\\"x\\\" ;\" [[br ack]] [=[l1]]]=] (c (d)) ${r}/p -Dk=v)\nif(NOT (A AND B))\nendif()\n",
     "plain_commands": "set(V 1)\nif(V)\n  message(STATUS \"v is ${V}\")\nendif()\nforeach(i a b)\n  list(APPEND L ${i})\nendforeach()\n",
+    "after_return": "set(A 1)\nif(A)\n  return()\nendif()\nreturn()\n#[[[\n# Never defined at run time.\n#]]\nfunction(late a)\n  message(STATUS \"late ${a}\")\nendfunction()\nset(B 2)\n",
     "no_final_newline": "# leading comment\noption(OPT \"help\" ON)\nmacro(m x)\nendmacro()\n#[[ block ]]\nadd_test(NAME n COMMAND c)",
 }
 
@@ -47,7 +48,7 @@ def faults_at(text, pos):
     """(kind, mutant) for one position"""
     out = []
     ins = [("quote", '"'), ("bad_escape", "\\q"), ("open_bracket_comment0", "#[["), ("open_bracket_comment1", "#[=["),
-           ("lparen", "("), ("rparen", ")"), ("bare_word", " stray ")]
+           ("lparen", "("), ("rparen", ")"), ("bare_word", " stray "), ("bare_at", " @PKG_INIT@ "), ("bare_ref", " ${stray} ")]
     for k, s in ins:
         out.append((k, text[:pos] + s + text[pos:]))
     if pos < len(text) and text[pos] in "()":
@@ -124,6 +125,64 @@ def _judge_rewrite(job):
 
 
 ANCESTORS = ["build", "_deps", "CMakeFiles", ".git", ".hidden", "node_modules", "tmp", "docs", "test"]
+
+
+def logging_config(name):
+    """a complete logging section (the shipped one with one thing changed; the section is not merged with the default)"""
+    import copy
+    import yaml
+    lg = copy.deepcopy(pipeline.yaml_defaults()["logging"])
+    if name.startswith("logger-"):
+        lg["loggers"]["cminx"]["level"] = name[7:].upper()
+        if name == "logger-critical":
+            lg["root"]["level"] = "CRITICAL"
+    elif name == "console-error":
+        lg["handlers"]["console"]["level"] = "ERROR"
+    elif name == "no-handlers":
+        lg["loggers"]["cminx"]["handlers"] = []
+        lg["root"]["handlers"] = []
+    elif name == "logger-unconfigured":
+        del lg["loggers"]["cminx"]
+        lg["root"]["level"] = "WARNING"
+    return yaml.safe_dump({"logging": lg})
+
+
+LOGCFG = ["logger-info", "logger-warning", "logger-critical", "console-error", "no-handlers", "logger-unconfigured"]
+
+
+def cli_logging(job):
+    """the faulty file through the command line under logging configurations other than the shipped one: how much is
+    logged must not decide whether the run fails"""
+    name, kind, pos, text, cfgname = job
+    root = os.path.join(pipeline.tmpdir(), f"log-{common.digest([text, cfgname])}")
+    shutil.rmtree(root, ignore_errors=True)
+    os.makedirs(os.path.join(root, "in"))
+    os.makedirs(os.path.join(root, "cfg"))
+    with open(os.path.join(root, "in", "bad.cmake"), "w", encoding="utf-8") as f:
+        f.write(text)
+    with open(os.path.join(root, "in", "good.cmake"), "w") as f:
+        f.write(BASES["flat_sets"])
+    with open(os.path.join(root, "log.yaml"), "w") as f:
+        f.write(logging_config(cfgname))
+    env = dict(os.environ, CMINXDIR=os.path.join(root, "cfg"), HOME=root, XDG_CONFIG_HOME=os.path.join(root, "cfg"),
+               PWD=os.path.join(root, "cfg"))
+    code = CLI % common.REPO_SRC
+    msgs = []
+    ok = subprocess.run([common.PYTHON, "-c", code, "-s", os.path.join(root, "log.yaml"), "-o", os.path.join(root, "out-good"),
+                         os.path.join(root, "in", "good.cmake")], capture_output=True, text=True, env=env, cwd=root)
+    if ok.returncode != 0:      # the configuration itself must be acceptable, else a failing run proves nothing
+        raise common.HarnessFault(f"logging configuration {cfgname} is rejected for a valid module: {ok.stderr[-300:]}")
+    for label, args in (("file", [os.path.join(root, "in", "bad.cmake")]), ("directory", ["-r", os.path.join(root, "in")])):
+        out = os.path.join(root, "out-" + label)
+        p = subprocess.run([common.PYTHON, "-c", code, "-s", os.path.join(root, "log.yaml"), "-o", out] + args,
+                           capture_output=True, text=True, env=env, cwd=root)
+        wrote = os.path.exists(os.path.join(out, "bad.rst"))
+        if p.returncode == 0 or wrote:
+            msgs.append(f"silent-cli: logging configuration {cfgname}: `cminx -s log.yaml -o out <{label}>` exits {p.returncode}"
+                        f"{' and wrote bad.rst' if wrote else ''} for {kind} at offset {pos} of {name}")
+    shutil.rmtree(root, ignore_errors=True)
+    return {"viol": msgs, "obs": common.digest([cfgname, not msgs]), "nt": common.digest([text, cfgname]), "n": 2,
+            "cls": f"silent-cli logging {cfgname}" if msgs else None, "case": {"logging": [name, kind, pos, text, cfgname]}}
 
 
 def cli_many(job):
@@ -309,7 +368,10 @@ def run(ctx):
         byk.setdefault((j[0], j[1]), []).append(j)
     cli = []
     for k, lst in sorted(byk.items()):
-        picks = {0, len(lst) // 2, len(lst) - 1} if quick else set(range(0, len(lst), max(1, len(lst) // 12)))
+        if quick:   # three positions on one base, the middle one on the others
+            picks = {0, len(lst) // 2, len(lst) - 1} if k[0] == "flat_sets" else {len(lst) // 2}
+        else:
+            picks = set(range(0, len(lst), max(1, len(lst) // 12)))
         cli += [lst[i] for i in sorted(picks)]
     ctx.sweep(cli_case, cli, space="CLI subprocess (single file, directory, recursive directory)", selftest=0, chunk=1, isolate=False)
     # process histories: every ordered pair out of a spread of judged mutants (first, middle, last of each fault kind on
@@ -333,7 +395,9 @@ def run(ctx):
             if k[1] in ("quote", "rparen") or not quick:
                 many += [j + (n, "plain") for n in ((2, 256) if quick else (2, 3, 255, 256, 257, 512))]
     ctx.sweep(cli_many, many, space="CLI: n faulty inputs / odd ancestor directories", selftest=0, chunk=1, isolate=False)
-    ctx.cov["bounds"] = {"bases": list(BASES), "fault_kinds": 10, "cli_confirmations": len(cli),
+    lj = [lst[len(lst) // 2] + (c,) for k, lst in sorted(byk.items()) if k[0] == "flat_sets" for c in LOGCFG]
+    ctx.sweep(cli_logging, lj, space="CLI under other logging configurations", selftest=0, chunk=1, isolate=False)
+    ctx.cov["bounds"] = {"bases": list(BASES), "fault_kinds": 12, "cli_confirmations": len(cli), "logging_configurations": list(LOGCFG),
                          "inputs_per_command_line": [1, 2, 256] if quick else [1, 2, 3, 255, 256, 257, 512],
                          "ancestor_directory_names": ANCESTORS}
     ctx.assumptions += ["a mutant that cmake accepts (legacy unquoted forms, faults that re-pair with later text) is not judged",
@@ -354,6 +418,8 @@ def replay(case):
         return judge_sequence(tuple(tuple(x) for x in case["sequence"]))["viol"]
     if "rewrite" in case:
         return judge_rewrite(tuple(case["rewrite"]))["viol"]
+    if "logging" in case:
+        return cli_logging(tuple(case["logging"]))["viol"]
     if "many" in case:
         return cli_many(tuple(case["many"]))["viol"]
     job = (case["name"], case["kind"], case["pos"], case["text"])
